@@ -269,6 +269,14 @@ pub fn run_check(replay: Option<Value>) -> i32 {
     for (mi, m) in M6.iter().enumerate() {
         for backward in [false, true] {
             for (si, sc, pinned) in scenes(backward).into_iter().enumerate().flat_map(|(si, sc)| {
+                // (and once on [0, ±1] with steps of exactly 1/10: they add up to xend only up to rounding)
+                let tenth = if si == 0 {
+                    let p0 = crate::problems::base(crate::problems::Base::Decay(-0.05));
+                    let p = if backward { crate::problems::reflect(&p0) } else { p0 };
+                    Some((5usize, Scene { name: format!("{} (steps of a tenth of [0,1])", p.name), prob: p, x0: 0.0, xend: if backward { -1.0 } else { 1.0 } }, true))
+                } else {
+                    None
+                };
                 // every scene; the first one once more with first_step = max_step = span/10.005: the steps run
                 // at max_step and the piece left for the last one is half a per cent of it
                 // (a slow decay, so that every method really runs at max_step)
@@ -279,7 +287,7 @@ pub fn run_check(replay: Option<Value>) -> i32 {
                 } else {
                     None
                 };
-                std::iter::once((si, sc, false)).chain(again)
+                std::iter::once((si, sc, false)).chain(again).chain(tenth)
             }) {
                 let mut cfg = scene_cfg(*m, &sc, 1e-5);
                 if *m == Method::RK4 {
@@ -287,8 +295,9 @@ pub fn run_check(replay: Option<Value>) -> i32 {
                     cfg.first_step = Some((sc.xend - sc.x0) / 73.3);
                 }
                 if pinned {
-                    cfg.first_step = Some((sc.xend - sc.x0) / 10.005);
-                    cfg.max_step = Some((sc.xend - sc.x0).abs() / 10.005);
+                    let parts = if si == 5 { 10.0 } else { 10.005 };
+                    cfg.first_step = Some((sc.xend - sc.x0) / parts);
+                    cfg.max_step = Some((sc.xend - sc.x0).abs() / parts);
                 }
                 // the accepted grid as the low-level solver's callbacks see it (solve_ivp withholds the
                 // samples before x0 + first_step, so its own t is not the grid when first_step is set)
